@@ -138,3 +138,48 @@ from . import c18 as _c18  # noqa: E402
 
 aiomix.install(globals(), 0.25, lambda rng: aiomix.stream(rng, _c18.scenarios, tweak=aiomix.c12_tweak), aiomix.c12_specs,
                note="once() tags as set/frozenset/list/tuple/generator/dict keys, get_jobs / delete_jobs queries between runs, caller-side mutation of passed and returned tag sets; Spec: selection recomputed from the original tags")
+
+
+# ---- concurrent callers (threading): "delete_jobs removes exactly that selection and nothing else" also while other threads
+# ---- change the registry - every completed call's result and the final job set are those of some sequential order
+from . import c14 as _c14  # noqa: E402
+
+_prev = {k: globals().get(k) for k in ("scenarios", "runner", "specs", "classes", "nontrivial", "project", "direct_specs")}
+
+
+def scenarios(rng, n, tier):  # noqa: F811
+    for scn in _prev["scenarios"](rng, n, tier):
+        if rng.random() < 0.08:
+            c = _c14.gen_scenario(rng, {"p_exec_heavy": 0.0, "p_line": 0.6, "del_heavy": True, "p_pause": 0.4})
+            c["kind"] = "conc"
+            yield c
+        else:
+            yield scn
+
+
+def runner(scn):  # noqa: F811
+    return _c14.runner(scn) if scn.get("kind") == "conc" else _prev["runner"](scn)
+
+
+def specs(r):  # noqa: F811
+    return _c14.specs(r) if r["scn"].get("kind") == "conc" else _prev["specs"](r)
+
+
+def classes(r):  # noqa: F811
+    return ["kind:concurrent-callers"] + _c14.classes(r) if r["scn"].get("kind") == "conc" else _prev["classes"](r)
+
+
+def nontrivial(r):  # noqa: F811
+    return _c14.nontrivial(r) if r["scn"].get("kind") == "conc" else _prev["nontrivial"](r)
+
+
+if _prev["project"] is not None:
+    def project(line):  # noqa: F811
+        return _prev["project"](line)
+
+if _prev["direct_specs"] is not None:
+    def direct_specs(r):  # noqa: F811
+        return [] if r["scn"].get("kind") == "conc" else _prev["direct_specs"](r)
+
+RULE += ("; 8% of the scenarios are 2-4 controlled threads performing tag deletions, deletions, scheduling and queries at once (C14 family, "
+         "40% with one long preemption): results (incl. the count delete_jobs returns) and the final job set must be linearizable")
